@@ -47,7 +47,10 @@ META = {
                    "(all 873 permutations of 1..6 elements against (-1)^inversions; all pairs of S_2, S_3, S_4 (thorough S_5) for "
                    "multiplicativity) - no solver content.  unique_perms: CrossHair (E3) on a symbolic list under the contract in "
                    "contracts/c18_unique_perms.py; only 'Confirmed over all paths' counts; plus a complete enumeration over a small "
-                   "alphabet (engine 'enumeration').  perfect_matchings: symbolic execution of the real function on SYMBOLIC real "
+                   "alphabet (engine 'enumeration'); call histories (an enumeration of an equal list abandoned after k items, or advanced "
+                   "in lock-step) under contracts/c18_unique_perms_history.py with xs, k symbolic - CrossHair executes functools caches as "
+                   "plain calls, so every input of that bound is also replayed on the real interpreter (translator validation of "
+                   "CrossHair's interpreter model).  perfect_matchings: symbolic execution of the real function on SYMBOLIC real "
                    "labels assumed pairwise distinct (the `== num[j]` masks are decided by z3 under that assumption); z3 proves that "
                    "every returned row realises, for all label values, one index matching of the harness's own enumeration; that "
                    "these index matchings are pairwise different and (n-1)!! many is finite combinatorics done in the harness; the "
